@@ -329,7 +329,20 @@ fn case_udiff(kv: &Kv) -> String {
         // a header cannot be unset; without one compare with a fresh value, otherwise use the reused one
         let u = if header { u } else { fresh };
         match via {
-            "display" => u.to_string().into_bytes(),
+            "display" => {
+                // formatter flags do not change what is written
+                let plain = u.to_string();
+                if format!("{:4}", u) != plain || format!("{:>9}", u) != plain || format!("{:*^5}", u) != plain || format!("{:.0}", u) != plain {
+                    panic!("Display depends on formatter flags");
+                }
+                for h in u.iter_hunks() {
+                    let hp = h.to_string();
+                    if format!("{:6}", h) != hp || format!("{:.0}", h) != hp {
+                        panic!("hunk Display depends on formatter flags");
+                    }
+                }
+                plain.into_bytes()
+            }
             "writer" => {
                 let mut out = vec![];
                 u.to_writer(&mut out).unwrap();
